@@ -23,8 +23,9 @@ FUNCTIONS = [
     "magpylib._src.obj_classes.class_BaseTransform:BaseTransform.rotate",
 ]
 BOUNDS = [
-    "<=2 top-level sources (custom sources, a class group of dipoles, a collection of two), path lengths from {1,2,3} (unequal lengths "
-    "exercise the tiling), <=2 observer positions; all real poses, one symbolic rigid motion (unit quaternion + translation)",
+    "<=2 top-level sources (custom sources, a class group of dipoles, a collection of two, a nested collection), path lengths from {1,2,3} "
+    "(unequal lengths exercise the tiling), <=2 observer positions or one Sensor moved along with the setup; all real poses, one symbolic rigid "
+    "motion (unit quaternion + translation) applied either as rotate(anchor=0)+move or as rotate(anchor=None)+per-entry move",
 ]
 CUTS = ["local field functions uninterpreted (statement proved for every local field function)", "scipy Rotation replaced by SymRot"]
 ASSUMPTIONS = ["real arithmetic; unit norm of all input quaternions"]
@@ -38,14 +39,25 @@ SCENES = {
     "two-unequal": {"sources": [cu("a", 1), cu("b", 2)], "sensors": []},
     "dipole-group": {"sources": [di("d1", 2), di("d2", 1)], "sensors": []},
     "collection": {"sources": [{"kind": "coll", "path": 2, "children": [cu("a", 2), di("d1", 2)]}], "sensors": []},
+    "nested-collection": {"sources": [{"kind": "coll", "path": 1, "children": [{"kind": "coll", "path": 1, "children": [cu("a", 1)]}, cu("b", 1)]}], "sensors": []},
+    "with-sensor": {"sources": [cu("a", 2)], "sensors": [{"path": 1, "pixel": (3,), "orient": "identity"}]},
 }
+THOROUGH_SCENES = {
+    # sensor paths: every == test on the symbolic sensor quaternions forks, before and after the motion (hundreds of paths)
+    "with-sensor-path2": {"sources": [cu("a", 2)], "sensors": [{"path": 2, "pixel": (3,), "orient": "sym"}]},
+    "with-sensor-sym": {"sources": [cu("a", 1)], "sensors": [{"path": 1, "pixel": None, "orient": "sym"}]},
+}
+MODES = ("anchor0", "own-anchor")
 
 
 def cases(tier, seed):
     out = []
+    if tier == "thorough":
+        SCENES.update(THOROUGH_SCENES)
     for nm in SCENES:
-        for nobs in (1, 2):
-            out.append({"id": f"{nm}-obs{nobs}", "scene": nm, "nobs": nobs, "weight": 3})
+        for mode in MODES:
+            nobs = 2 if mode == "anchor0" else 1
+            out.append({"id": f"{nm}-{mode}-obs{nobs}", "scene": nm, "nobs": nobs, "mode": mode, "weight": 3})
     return out
 
 
@@ -53,10 +65,25 @@ def _moved_copy_env(sc):
     pass
 
 
+def _rigid(obj, P, q0, t0, mode, symbolic):
+    """apply the global rigid motion x -> q0 x + t0 to one top-level object through the public API"""
+    if mode == "anchor0":
+        obj.rotate(q0, anchor=0, start=0)
+        obj.move(t0.copy(), start=0)
+    else:
+        # rotate about the object's own position (anchor=None; children of a collection rotate about the collection position),
+        # then translate every path entry so that the net effect is the same global motion
+        obj.rotate(q0, start=0)
+        disp = q0.apply(P) + t0 - P
+        obj.move(disp if len(P) > 1 else disp[0], start=0)
+
+
 def run_case(case, info):
     C = Case(case, info, qtimeout=20000 if info["tier"] == "quick" else 120000)
+    SCENES.update(THOROUGH_SCENES)
     spec = SCENES[case["scene"]]
     nobs = case["nobs"]
+    mode = case.get("mode", "anchor0")
 
     def run():
         sc = L2.Scene(spec)
@@ -66,12 +93,12 @@ def run_case(case, info):
             q0, unit0 = symrot("g")
             t0 = symarr("t", (3,))
             try:
-                out1 = sc.call("B", squeeze=False, observers=obs.copy())
-                for t in sc.top:
-                    t.obj.rotate(q0, anchor=0, start=0)
-                    t.obj.move(t0.copy(), start=0)
+                use_sens = bool(sc.sensors)
+                out1 = sc.call("B", squeeze=False, observers=None if use_sens else obs.copy())
+                for t in sc.top + sc.sensors:
+                    _rigid(t.obj, t.P, q0, t0, mode, symbolic=True)
                 obs2 = q0.apply(obs) + t0
-                out2 = sc.call("B", squeeze=False, observers=obs2)
+                out2 = sc.call("B", squeeze=False, observers=None if use_sens else obs2)
             except Exception as e:  # noqa
                 return sc, e, None, None, None, None
         finally:
@@ -84,7 +111,7 @@ def run_case(case, info):
             C.note_inconclusive(f"p{C.paths}", f"aborted: {p.out}")
             return
         sc, out1, out2, q0, unit0, extra_inputs = p.out
-        rp = {"kind": "c03", "scene": case["scene"], "nobs": nobs}
+        rp = {"kind": "c03", "scene": case["scene"], "nobs": nobs, "mode": mode}
         if isinstance(out1, Exception):
             C.obligations.append({"name": f"p{C.paths}.returns", "status": "sat", "note": f"raised {type(out1).__name__}: {out1}"})
             C.candidates.append({"key": f"C03|raises|{case['scene']}", "replay": dict(rp, env={})})
@@ -95,9 +122,10 @@ def run_case(case, info):
             C.obligations.append({"name": f"p{C.paths}.shape", "status": "sat", "note": f"{o1.shape} vs {o2.shape}"})
             C.candidates.append({"key": f"C03|shape|{case['scene']}", "replay": dict(rp, env={})})
             return
-        rot1 = q0.apply(o1.reshape(-1, 3))
+        # bare observers: the global-frame field rotates with q0; sensors moved along: their readings are unchanged
+        rot1 = o1.reshape(-1, 3) if sc.sensors else q0.apply(o1.reshape(-1, 3))
         viol = neq_any(rot1, o2.reshape(-1, 3))
-        viol, merged, failed = C.merge_uf(p.pc + sc.assume + unit0, viol)
+        viol, merged, failed = C.merge_uf(p.pc + sc.assume + unit0, viol, inputs=sc.inputs + extra_inputs, quat_groups=sc.quat_groups + [list(q0.q[0])])
         C.obligations.append({"name": f"p{C.paths}.argument-lemmas", "status": "unsat" if not failed else "unknown", "witness": "sat",
                               "note": f"{merged} pairs of local-field applications proved to have equal arguments, {failed} undecided"})
         C.oblige(f"p{C.paths}.covariance", p.pc + sc.assume + unit0, viol,
@@ -125,6 +153,7 @@ def replay(spec):
             return self[k]
 
     env = _E(env)
+    SCENES.update(THOROUGH_SCENES)
     sc = L2.Scene(SCENES[spec["scene"]], symbolic=False, env=env)
     sc.patch_classes()
     try:
@@ -136,17 +165,17 @@ def replay(spec):
         q0 = R.from_quat(q)
         t0 = np.array([env.get(f"t_{c}") for c in range(3)])
         try:
-            out1 = np.asarray(sc.call("B", squeeze=False, observers=obs.copy()), dtype=float)
-            for t in sc.top:
-                t.obj.rotate(q0, anchor=0, start=0)
-                t.obj.move(t0, start=0)
-            out2 = np.asarray(sc.call("B", squeeze=False, observers=q0.apply(obs) + t0), dtype=float)
+            use_sens = bool(sc.sensors)
+            out1 = np.asarray(sc.call("B", squeeze=False, observers=None if use_sens else obs.copy()), dtype=float)
+            for t in sc.top + sc.sensors:
+                _rigid(t.obj, np.array(t.P), q0, t0, spec.get("mode", "anchor0"), symbolic=False)
+            out2 = np.asarray(sc.call("B", squeeze=False, observers=None if use_sens else q0.apply(obs) + t0), dtype=float)
         except Exception as e:  # noqa
             return True, f"valid call raised {type(e).__name__}: {str(e)[:200]}"
     finally:
         sc.unpatch_classes()
     if out1.shape != out2.shape:
         return True, f"shape {out1.shape} vs {out2.shape}"
-    exp = q0.apply(out1.reshape(-1, 3)).reshape(out1.shape)
+    exp = out1 if sc.sensors else q0.apply(out1.reshape(-1, 3)).reshape(out1.shape)
     bad = not rel_close(exp, out2, 1e-9, 1e-12)
     return bad, f"scene {spec['scene']}: max |q0*B - B'| = {np.abs(exp - out2).max():.3e}"
